@@ -124,7 +124,11 @@ func (f *File) ReadDir(n int) ([]DirEntry, error) {
 
 func (f *File) Read(b []byte) (int, error) {
 	if f.sim != nil {
-		return f.sim.Read(b)
+		n, err := f.sim.Read(b)
+		// the return from a system call is a point where a real scheduler may switch: the
+		// bytes are in b, the caller has not looked at them yet
+		zsim.Yield("os.File.Read:return")
+		return n, err
 	}
 	if f.kfd != nil {
 		return f.kfd.Read(b)
